@@ -558,7 +558,7 @@ def part_asm_cfg(ctx):
     quick = ctx.tier == "quick"
     progs = PC.select(ctx.tier, rnd)
     if quick:
-        progs = progs[:10]
+        progs = progs[:8]
     hangs, nfail = [], 0
 
     class Hang(Exception):
@@ -574,7 +574,7 @@ def part_asm_cfg(ctx):
             fam_ok = fam_fail = 0
             try:
                 signal.alarm(150)
-                fam_ok, fam_fail = run_families(obs, rnd, 12 if quick else 150)
+                fam_ok, fam_fail = run_families(obs, rnd, 6 if quick else 150)
             except Hang:
                 hangs.append("IR families")
             finally:
@@ -602,7 +602,7 @@ def part_asm_cfg(ctx):
     if obs.errors:
         ctx.violation("correspondence-broken", "cannot record an assembly: " + obs.errors[0], {"errors": obs.errors[:5]})
     items = sorted(obs.items.values(), key=lambda it: (not (it["origin"] or "").startswith("family:"), it["nitems"], it["key"]))
-    cap = 90 if quick else 100000
+    cap = 60 if quick else 100000
     if len(items) > cap:
         fam = [it for it in items if (it["origin"] or "").startswith("family:")][:cap // 2]
         rest = [it for it in items if it not in fam]
